@@ -75,14 +75,40 @@ pub struct AggregationCircuitFingerprint {
     pub public_flat_len: usize,
     pub private_flat_len: usize,
     pub ops_len: usize,
+    /// Digest of the op list and of the public / private row maps: the preprocessed columns
+    /// are a function of these, and the four counters above do not determine them.
+    pub structure_digest: u64,
 }
 
-const fn aggregation_circuit_fingerprint<F>(circuit: &Circuit<F>) -> AggregationCircuitFingerprint {
+/// FNV-1a over everything written to it.
+struct FnvWriter(u64);
+
+impl core::fmt::Write for FnvWriter {
+    fn write_str(&mut self, s: &str) -> core::fmt::Result {
+        for b in s.bytes() {
+            self.0 ^= b as u64;
+            self.0 = self.0.wrapping_mul(0x0000_0100_0000_01b3);
+        }
+        Ok(())
+    }
+}
+
+fn aggregation_circuit_fingerprint<F: core::fmt::Debug>(
+    circuit: &Circuit<F>,
+) -> AggregationCircuitFingerprint {
+    use core::fmt::Write;
+    let mut w = FnvWriter(0xcbf2_9ce4_8422_2325);
+    let _ = write!(
+        w,
+        "{:?}|{:?}|{:?}",
+        circuit.ops, circuit.public_rows, circuit.private_input_rows
+    );
     AggregationCircuitFingerprint {
         witness_count: circuit.witness_count,
         public_flat_len: circuit.public_flat_len,
         private_flat_len: circuit.private_flat_len,
         ops_len: circuit.ops.len(),
+        structure_digest: w.0,
     }
 }
 
